@@ -1,0 +1,103 @@
+//go:build verif
+
+// Contracts for the deductive verifier in /verif (govc). Comment-only: this file adds no code.
+package syslutil
+
+// ---- C18: file access never escapes the project root
+
+// Lexical path facts are uninterpreted; path/filepath is specified (trusted) in terms of them.
+//@ ufun isAbs(p string) bool
+//@ ufun cleanOf(p string) string
+//@ spec inRoot(root string, p string) bool = p == root || hasPrefix(p, root + "/") || root == "/"
+//@ spec firstSeg(s string) string = ite(contains(s, "/"), substr(s, 0, indexOf(s, "/")), s)
+//@ spec confined(root string, p string) bool = isAbs(p) && cleanOf(p) == p && inRoot(cleanOf(root), p)
+
+//@ func path/filepath.IsAbs
+//@   trusted
+//@   noeffect
+//@   ensures result == isAbs(path)
+
+// Abs returns a clean absolute path (filepath.Abs calls Clean).
+//@ func path/filepath.Abs
+//@   trusted
+//@   noeffect
+//@   ensures result1 == nil ==> isAbs(result0) && cleanOf(result0) == result0
+//@   ensures isAbs(path) ==> result1 == nil && result0 == cleanOf(path)
+
+//@ func path/filepath.Join
+//@   trusted
+//@   noeffect
+
+// Rel cleans both arguments; for absolute arguments it succeeds, and the result starts with the segment ".."
+// exactly when the target is not lexically inside the base.
+//@ func path/filepath.Rel
+//@   trusted
+//@   noeffect
+//@   ensures isAbs(basepath) && isAbs(targpath) ==> result1 == nil
+//@   ensures result1 == nil && isAbs(basepath) && isAbs(targpath) ==> ((firstSeg(result0) == "..") == !inRoot(cleanOf(basepath), cleanOf(targpath)))
+//@   ensures result1 == nil && isAbs(basepath) && isAbs(targpath) && cleanOf(basepath) == cleanOf(targpath) ==> result0 == "."
+
+//@ func path/filepath.VolumeName
+//@   trusted
+//@   noeffect
+//@   ensures result == ""
+
+//@ func strings.TrimLeft
+//@   trusted
+//@   noeffect
+//@   ensures cutset == "" ==> result == s
+
+// strings.Split with a non-empty separator: at least one element, the first is the text before the first separator.
+//@ func strings.Split
+//@   trusted
+//@   noeffect
+//@   fresh
+//@   ensures sep != "" ==> len(result) >= 1 && result[0] == ite(contains(s, sep), substr(s, 0, indexOf(s, sep)), s)
+
+//@ func errors.New
+//@   trusted
+//@   noeffect
+//@   ensures result != nil
+
+//@ func NewChrootFs
+//@   ensures [root-abs] result != nil && isAbs(result.root) && result.fs == fs
+
+//@ func trimVolumeName
+//@   ensures result == name
+
+//@ func cleanPathForMemFs
+//@   ensures result == p
+
+//@ func (*ChrootFs).join
+//@   requires isAbs(fs.root)
+//@   ensures [clean-abs] result1 == nil ==> isAbs(result0) && cleanOf(result0) == result0
+
+// The check: nil exactly for paths lexically inside the root (soundness and completeness).
+//@ func (*ChrootFs).openAllowed
+//@   requires isAbs(fs.root) && isAbs(fullPath) && cleanOf(fullPath) == fullPath
+//@   ensures [sound] result == nil ==> inRoot(cleanOf(fs.root), fullPath)
+//@   ensures [complete] inRoot(cleanOf(fs.root), fullPath) ==> result == nil
+
+// Both wrappers hand fn only a path for which openAllowed returned nil.
+//@ func (*ChrootFs).wrapCall
+//@   requires isAbs(fs.root)
+//@   fnspec fn params p
+//@     requires confined(fs.root, p)
+//@   end
+//@ func (*ChrootFs).wrapCallWithData
+//@   requires isAbs(fs.root)
+//@   fnspec fn params p
+//@     requires confined(fs.root, p)
+//@   end
+
+// Every closure given to the wrappers may assume its argument is confined, and every string that reaches the
+// wrapped filesystem from it must be confined.
+//@ func (*ChrootFs).%$1
+//@   requires fs != nil && fs.fs != nil && isAbs(fs.root)
+//@   requires confined(fs.root, fixedPath)
+//@   assert @call:iface:github.com/spf13/afero.Fs.% [wrapped-fs-arg-confined] confined(fs.root, it)
+
+// No operation method may reach the wrapped filesystem except through the wrappers.
+//@ func (*ChrootFs).%
+//@   requires fs.fs != nil && isAbs(fs.root)
+//@   assert @call:iface:github.com/spf13/afero.Fs.% [wrapped-fs-arg-confined] confined(fs.root, it)
